@@ -290,6 +290,18 @@ func (fr *Frame) step(in ssa.Instruction, st *State, g Term) {
 			}
 		}
 		v := fr.val(i.Val, st)
+		if pv, ok := v.(PV); ok && pv.Cell != nil && p.Cell != nil && len(p.Path) == 0 {
+			// a variable holding a pointer to a cell: keep the pointer itself
+			if st.ptrs == nil {
+				st.ptrs = map[*Cell]PV{}
+			}
+			st.ptrs[p.Cell] = pv
+			st.cells[p.Cell] = x.fresh("ptrvar", p.Cell.Sort)
+			return
+		}
+		if p.Cell != nil && len(p.Path) == 0 {
+			delete(st.ptrs, p.Cell)
+		}
 		if ir, ok := v.(IfaceRef); ok {
 			_ = ir
 			x.unsupported("%s: storing an interface that wraps a cell pointer", fr.fn)
@@ -468,6 +480,12 @@ func (fr *Frame) unop(i *ssa.UnOp, st *State, g Term) {
 		base := fr.val(i.X, st)
 		switch b := base.(type) {
 		case PV:
+			if b.Cell != nil && len(b.Path) == 0 {
+				if pp, ok := st.ptrs[b.Cell]; ok {
+					fr.regs[i] = pp
+					return
+				}
+			}
 			t := x.load(b, st)
 			tv := TV{T: t}
 			if t.Sort.Kind == KPtr || t.Sort.Kind == KAny {
@@ -703,6 +721,10 @@ func (fr *Frame) makeInterface(i *ssa.MakeInterface, st *State, g Term) {
 	tc := x.eng.tc
 	target := tc.sortOf(i.Type())
 	v := fr.val(i.X, st)
+	if clo, ok := v.(CloV); ok && fr.isGhostOperand(i) {
+		fr.regs[i] = clo
+		return
+	}
 	switch target.Kind {
 	case KAny:
 		if pv, ok := v.(PV); ok {
@@ -791,4 +813,22 @@ func (fr *Frame) convert(i *ssa.Convert, st *State, g Term) {
 		x.unsupported("%s: conversion %s -> %s", fr.fn, from.Name, to.Name)
 		fr.regs[i] = TV{T: x.fresh("conv", to)}
 	}
+}
+
+// isGhostOperand: the interface value is only used as an argument of a ghost call.
+func (fr *Frame) isGhostOperand(i *ssa.MakeInterface) bool {
+	refs := i.Referrers()
+	if refs == nil || len(*refs) == 0 {
+		return false
+	}
+	for _, r := range *refs {
+		c, ok := r.(*ssa.Call)
+		if !ok || ghostKind(c) == "" {
+			if _, isDbg := r.(*ssa.DebugRef); isDbg {
+				continue
+			}
+			return false
+		}
+	}
+	return true
 }
